@@ -16,8 +16,9 @@ from fractions import Fraction
 VERIF = os.path.dirname(os.path.dirname(os.path.abspath(__file__)))
 REPO = os.environ.get("VERIF_REPO", "/repo")
 SPEC = os.path.join(VERIF, "spec")
-OUT = os.path.join(VERIF, "out")
-HARNESS = os.path.join(VERIF, "harness")
+# development only: VERIF_OUT / VERIF_HARNESS let a second copy of the harness run against a scratch worktree
+OUT = os.environ.get("VERIF_OUT", os.path.join(VERIF, "out"))
+HARNESS = os.environ.get("VERIF_HARNESS", os.path.join(VERIF, "harness"))
 SCV = os.path.join(HARNESS, "target", "debug", "scv")
 SHIM = os.path.join(OUT, "clock_shim.so")
 TLA_JAR = "/opt/veriftools/tla/tla2tools.jar"
@@ -471,8 +472,9 @@ class Report:
             "wall_s": round(time.time() - self.t0, 1),
             "violations": len(unknown),
         }
-        os.makedirs(os.path.join(VERIF, "evidence"), exist_ok=True)
-        with open(os.path.join(VERIF, "evidence", self.pid + ".json"), "w", encoding="utf-8") as f:
+        evdir = os.environ.get("VERIF_EVIDENCE", os.path.join(VERIF, "evidence"))     # override: development runs against scratch copies
+        os.makedirs(evdir, exist_ok=True)
+        with open(os.path.join(evdir, self.pid + ".json"), "w", encoding="utf-8") as f:
             json.dump(ev, f, ensure_ascii=False, indent=1)
         log("[%s] tier=%s evaluations=%d distinct=%d violations=%d (known-finding hits %d) wall=%.0fs" % (
             self.pid, self.tier, self.evaluations, len(self.distinct), len(unknown),
